@@ -1683,6 +1683,40 @@ func c16model(c *Ctx, p *pkgT) {
 		if decClose != nil {
 			call(decClose, dec)
 		}
+		// a record without a shape in the middle of the file: its row is still consumed, so the
+		// record after it comes back with its own attributes
+		if nullT := s.shpType("Null"); nullT != nil && tn == "Point" {
+			nf := facet("rows:struct")
+			if st, ok := s.it.zero(nullT).(*oStruct); ok {
+				saved := file.shapes[1]
+				file.shapes[1] = oPtr{st}
+				res, why := call(newDec, nil, strVal(strT, "out/"+tn+".shp"))
+				if why == "" && isNilErr(res[1]) {
+					dec := res[0]
+					for k := 0; k < 3; k++ {
+						out := s.zeroRecord(decT)
+						res, why := call(decRow, dec, oIface{dyn: oPtr{out}, styp: types.NewPointer(decT)})
+						if why != "" {
+							nf.setUnk("DecodeRow is not interpretable on a file whose second record has no shape: %s", why)
+							break
+						}
+						if more, _ := res[0].(oBool); !bool(more) {
+							nf.setBad("DecodeRow reports the end of a file of three at record %d when the second record has no shape", k)
+							break
+						}
+						if n, ok := out.fields["COUNT"].(oInt); ok && int64(n) != counts[k] {
+							nf.setBad("after a record without a shape, record %d comes back with the integer attribute %d of another row (its own is %d): the attribute row is not consumed with the record", k, int64(n), counts[k])
+							break
+						}
+					}
+					if decClose != nil {
+						call(decClose, dec)
+					}
+				}
+				file.shapes[1] = saved
+				drainProblems(row, tn)
+			}
+		}
 	}
 
 	// ------------------------------------------------------------ field flow
@@ -1781,6 +1815,35 @@ func c16model(c *Ctx, p *pkgT) {
 				res, why = call(decErr, recvFor(decErr, dec))
 				if why == "" && len(res) == 1 && !isNilErr(res[0]) {
 					rowsF.setBad("Decoder.Error reports an error after reading back the file just written")
+				}
+				// a second reader that asks for the geometry only on the first record and for an
+				// attribute on the next: each record still consumes its row
+				if res2, why := call(newDec, nil, strVal(strT, "out/fields")); why == "" && isNilErr(res2[1]) {
+					dec2 := res2[0]
+					none := s.m.sliceOf(types.NewSlice(strT), nil)
+					one := s.m.sliceOf(types.NewSlice(strT), []oval{strVal(strT, "ID")})
+					for k := 0; k < 3; k++ {
+						arg := one
+						if k == 0 {
+							arg = none
+						}
+						r, why := call(decRowF, dec2, arg)
+						if why != "" || len(r) != 3 {
+							rowsF.setUnk("DecodeRowFields is not interpretable when the first record is read without attribute names: %s", why)
+							break
+						}
+						if k == 0 {
+							continue
+						}
+						if mp, isMap := r[1].(oMap); isMap {
+							if i := mp.find(strVal(strT, "ID")); i >= 0 {
+								if got, _ := strOf((*mp.vals)[i]); got != strconv.Itoa(int(counts[k])) {
+									rowsF.setBad("after a record read without attribute names, record %d comes back with attribute ID = %q, its own is %d: the attribute row is not consumed with every record", k, got, counts[k])
+									break
+								}
+							}
+						}
+					}
 				}
 			}
 		}
